@@ -358,3 +358,50 @@ func (d *zzDoc) RefTotal() (total int, should int) {
 	}
 	return
 }
+
+// ---- exported model of what a generated document denotes (for harnesses in other packages) ----
+
+type ZZEntry struct {
+	Kind    int // 1 duration, 2 range, 3 open range
+	A, B    int
+	Summary []string
+	Line    int
+}
+
+type ZZRec struct {
+	Date      string
+	Should    int
+	Summary   []string
+	Entries   []ZZEntry
+	Indent    string // indentation used by the record's entries ("" if it has none)
+	FirstLine int    // line index of the headline
+	LastLine  int    // line index of the record's last line
+}
+
+func (d *zzDoc) Model() []ZZRec {
+	var out []ZZRec
+	for _, r := range d.records {
+		m := ZZRec{Date: r.date, Should: r.should, Summary: append([]string{}, r.summary...), Indent: r.indent, FirstLine: r.firstLine, LastLine: r.lastLine}
+		for _, e := range r.entries {
+			m.Entries = append(m.Entries, ZZEntry{Kind: e.kind, A: e.a, B: e.b, Summary: append([]string{}, e.summary...), Line: e.line})
+		}
+		out = append(out, m)
+	}
+	return out
+}
+
+func (d *zzDoc) EOL() string    { return d.eol }
+func (d *zzDoc) FinalEOL() bool { return d.finalEOL }
+
+// ZZCheckModel asserts that rs are exactly the records of the model.
+func ZZCheckModel(rs []klog.Record, model []ZZRec) {
+	d := &zzDoc{}
+	for _, m := range model {
+		r := zzRec{date: m.Date, should: m.Should, summary: m.Summary}
+		for _, e := range m.Entries {
+			r.entries = append(r.entries, zzEntry{kind: e.Kind, a: e.A, b: e.B, summary: e.Summary})
+		}
+		d.records = append(d.records, r)
+	}
+	zzCheckRecords(d, rs)
+}
